@@ -452,6 +452,17 @@ PlansC04(st) ==
   \cup {Plan("foreign_shifted", "not_accept", <<[M("foreign_shifted") EXCEPT !.l = ll[1], !.l2 = ll[2]]>>) :
           ll \in {x \in BoundedLabels \X BoundedLabels : x[1] # x[2] /\ S # "sonic"}}
 
+\* one query moved to ANOTHER point under its old point label, which then names two points; the claim at the new
+\* point false ("plus") or true ("true").  Whatever the batch verifier makes of such a query set, it must not
+\* answer "accept" while a claim of the statement is false.
+RepointPlans(st, pats) ==
+  IF st.kind # "batch" THEN {}
+  ELSE {Plan("repoint_query", IF c[3] = "plus" THEN "not_accept" ELSE "any",
+             <<[M("repoint_query") EXCEPT !.l = c[1][1], !.pl = c[1][2], !.pt = c[1][3], !.pt2 = c[2], !.pat = c[3]]>>) :
+          c \in {x \in st.qs \X ({q[3] : q \in st.qs} \cup {FreshPt}) \X pats :
+                   /\ x[2] # x[1][3]
+                   /\ x[1][1] \in L
+                   /\ \E q \in st.qs : q[2] = x[1][2] /\ q[1] # x[1][1]}}
 Subsets2(K) == {T \in SUBSET K : Cardinality(T) \in {1, 2, 3}}
 PlansC05(st) ==
   LET K == ClaimKeys(st)
@@ -485,6 +496,7 @@ PlansC05(st) ==
                 c \in WeightedCands(st)}
         ELSE {})
   \cup CompensatePlans(st)
+  \cup RepointPlans(st, {"plus"})
 
 \* combinations with two distinct polynomials of non-zero coefficient, queried somewhere
 KeepSumCands(st) == {c \in (DOMAIN st.lcs) \X st.qs :
@@ -553,6 +565,7 @@ PlansC17(st) ==
   \cup (IF st.kind \in {"batch", "lc"}
         THEN {Plan("missing_eval", "not_accept", <<[M("missing_eval") EXCEPT !.l = key[1], !.pt = key[2]]>>) : key \in ClaimKeys(st)}
         ELSE {})
+  \cup RepointPlans(st, {"plus", "true"})
   \cup (IF st.kind = "batch"
         THEN {Plan("unknown_query", "not_accept", <<[M("unknown_query") EXCEPT !.l = UnknownLabel, !.pl = 1, !.pt = 1]>>)}
              \cup {Plan("drop_commitment", "not_accept", <<[M("drop_commitment") EXCEPT !.l = q[1]]>>) : q \in st.qs}
@@ -599,6 +612,12 @@ ApplyToStmt(st, m) ==
               IN [st EXCEPT !.qs = nqs,
                             !.deltas = [key \in EvalKeys(nqs) |->
                                           IF key[2] = m.pt2 THEN StaleDelta(key[1]) ELSE st.deltas[key]]]
+    [] m.kind = "repoint_query" ->
+         LET nqs == (st.qs \ {<<m.l, m.pl, m.pt>>}) \cup {<<m.l, m.pl, m.pt2>>}
+         IN [st EXCEPT !.qs = nqs,
+                       !.deltas = [key \in EvalKeys(nqs) |->
+                                     IF key = <<m.l, m.pt2>> THEN (IF m.pat = "plus" THEN 1 ELSE 0) ELSE st.deltas[key]],
+                       !.lookup = IF WellFormedQs(nqs) THEN @ ELSE "ambiguous_label"]
     [] m.kind = "comm_swap" -> [st EXCEPT !.comms[m.l].src = 100 + m.l]
     [] m.kind = "relabel_bound" -> [st EXCEPT !.comms[m.l].lbound = m.d]
     [] m.kind = "drop_shifted" -> [st EXCEPT !.comms[m.l].shifted = "dropped", !.comms[m.l].lbound = NONE]
@@ -756,7 +775,14 @@ VkUsed(st) ==
 
 CheckOp(st, ps, sp0) ==
   LET sp == sp0 \o st.pre IN
-  CASE st.lookup # "" -> [res |-> "err", sp |-> sp, singles |-> "na"]     \* MissingPolynomial / MissingEvaluation
+  CASE st.lookup \notin {"", "ambiguous_label"} ->
+         [res |-> "err", sp |-> sp, singles |-> "na"]     \* MissingPolynomial / MissingEvaluation
+    \* groups keyed by the point label alone: the point of a label is the first one seen; an evaluation missing at
+    \* that point is an error, and the claims at the other points of the label are never looked at
+    [] st.lookup = "ambiguous_label" /\ st.kind = "batch" /\ ~BatchGroupsByLabelAndPoint
+         /\ (\E g \in DOMAIN Groups(st.qs) : \E j \in DOMAIN Groups(st.qs)[g].labels :
+                <<Groups(st.qs)[g].labels[j], Groups(st.qs)[g].pt>> \notin DOMAIN st.deltas) ->
+         [res |-> "err", sp |-> sp, singles |-> "na"]
     [] VkUsed(st) -> [res |-> "reject", sp |-> sp, singles |-> "na"]
     [] st.kind = "open" ->
          LET r == GroupCheck(S, keys, ContribMap, VGroup(st, GroupsOfStmt(st)[1], st.comms), ps[1], sp, "check")
